@@ -560,7 +560,12 @@ def _get_max_parab(fun, start, end, tol=0.01):
             except FloatingPointError:
                 return _get_min_bounded(fun, start, end, tol)
             if abs(b - x) <= tol:
-                return x
+                # two successive estimates agreeing is not yet a maximum (a pass shorter than the bracket, or a
+                # sharply peaked one, satisfies it at once): accept only if the neighbourhood is not higher
+                step = 10 * tol
+                if min(fun(max(x - step, float(start))), fun(min(x + step, float(end)))) >= fun(x) - 1e-4:
+                    return x
+                return _get_min_bounded(fun, start, end, tol)
             f_x = fun(x)
             # sometimes the estimation diverges... return best guess
             if f_x > f_b:
